@@ -103,7 +103,7 @@ pub fn exec(input: &Value) -> Value {
     }
     let mut case = input.clone();
     let obj = case.as_object_mut().unwrap();
-    obj.insert("aux".into(), gen_schema::float_strings(&input["ops"]));
+    obj.insert("aux".into(), gen_schema::aux_for(&input["schema"], &input["ops"]));
     obj.insert("ctor".into(), made);
     obj.insert("impl".into(), Value::Array(outs));
     obj.insert("oneshot".into(), Value::Array(oneshots));
